@@ -72,6 +72,8 @@ def event_tuple(ev):
 
 
 def value_class(ev):
+    if not isinstance(ev, MarshalEvent):
+        return type(ev).__name__
     return ELLIPSIS if ev.value is ... else type(ev.value).__name__
 
 
